@@ -29,7 +29,7 @@ class C12(Scenario):
     assumptions = ["only quantity functions fail (exception or wrong return type), as the statement says",
                    "fan-out collections only as the bins of a sparse container (profile new-bin-collection): a record that fails in a bin "
                    "that does not exist yet must leave nothing behind; once a failing record reaches an existing bin the stream is dropped"]
-    expected_faults = ["q_raise", "q_badtype", "q_badnum", "q_badcomplex", "q_missing_field"]
+    expected_faults = ["q_raise", "q_raisebase", "q_badtype", "q_badnum", "q_badcomplex", "q_missing_field"]
     expected_probes = ["fault_in_nested_child", "fault_on_new_sparse_bin", "fault_not_reached", "fanout_new_bin", "fanout_existing_bin", "stream_on_scaled_tree"]
 
     def _gen_collection(self, rng, tier):
@@ -121,7 +121,7 @@ class C12(Scenario):
         if not long_:
             for pos in range(n):
                 for nd in nodes:
-                    for mode in ("raise", "badtype") + (("badnum", "badcomplex") if nd in numeric else ()):
+                    for mode in ("raise", "badtype", "raisebase") + (("badnum", "badcomplex") if nd in numeric else ()):
                         steps.append({"op": "stream", "faults": [[pos, nd, mode]]})
             for _ in range(min(6, n)):
                 k = f.randint(2, 3)
@@ -200,7 +200,7 @@ class C12(Scenario):
                         prim = specmod.nodes(sp)[nd]["p"]
                         raise self.violation(prim, "fill", "no-exception:%s" % mode,
                                              "fill returned normally although the quantity of node %d (%s) %s" % (
-                                                 nd, prim, "raised" if mode == "raise" else "returned a value of the wrong type (%s)" % mode), si,
+                                                 nd, prim, "raised" if mode in ("raise", "raisebase") else "returned a value of the wrong type (%s)" % mode), si,
                                              {"placement": st["faults"], "pos": pos})
                     if pos in missing:
                         # the fill went through: then no quantity on this record's path reads the missing field
